@@ -205,6 +205,7 @@ theorem comp_offset_layout (types : List Elem) : ∀ (before : List Elem) (fuel 
       split at h
       · simp at h
       · rename_i off1 hoff
+        unfold storedOffset at hoff
         have hoff1 : off1 = off := by
           rcases (placeAt_iff _ _ _).mp hplace with ⟨ho, _⟩ | ⟨ho, hcur⟩
           · simp only [ho] at hoff
@@ -240,6 +241,7 @@ theorem comp_offset_layout (types : List Elem) : ∀ (before : List Elem) (fuel 
         split at h
         · simp at h
         · rename_i offx hoffx
+          unfold storedOffset at hoffx
           split at h
           · simp at h
           · rename_i szx lvx hex
@@ -300,6 +302,7 @@ theorem fieldLeaves_cons (types : List Elem) (cur : Nat) (f : FieldDef) (rest : 
   split at h
   · simp at h
   · rename_i off hoff
+    unfold storedOffset at hoff
     have hplace : placeAt f.offset cur = .ok off := by
       apply (placeAt_iff _ _ _).mpr
       cases ho : f.offset with
